@@ -282,7 +282,12 @@ func ruleR162(c *Ctx) {
 					arg = as.Rhs[i]
 				}
 			}
-			// strip the AddMap wrapper
+			// strip the AddArgs wrapper (the arguments may be added by the callers of generateIntern) and the AddMap wrapper
+			if call, ok := ast.Unparen(arg).(*ast.CallExpr); ok && isCallTo(info, call, addArgs) {
+				if sel, ok := ast.Unparen(call.Fun).(*ast.SelectorExpr); ok {
+					arg = sel.X
+				}
+			}
 			if call, ok := ast.Unparen(arg).(*ast.CallExpr); ok && isCallTo(info, call, addMap) {
 				if sel, ok := ast.Unparen(call.Fun).(*ast.SelectorExpr); ok {
 					arg = sel.X
@@ -300,6 +305,38 @@ func ruleR162(c *Ctx) {
 		cc, ok := y.(*ast.CallExpr)
 		return ok && isCallTo(info, cc, addArgs)
 	})
+	if !hasAddArgs {
+		// the arguments may be registered by every caller of generateIntern instead
+		inAll, nCallers := true, 0
+		giObj := info.Defs[gi.Name]
+		for _, f := range a.fg.Syntax {
+			for _, d := range f.Decls {
+				fd, ok := d.(*ast.FuncDecl)
+				if !ok || fd.Body == nil || fd == gi {
+					continue
+				}
+				callsGI := containsNode(fd.Body, func(y ast.Node) bool {
+					cc, ok := y.(*ast.CallExpr)
+					if !ok {
+						return false
+					}
+					cal := Callee(info, cc)
+					return cal != nil && (types.Object(cal) == giObj || cal.Origin() == giObj)
+				})
+				if !callsGI {
+					continue
+				}
+				nCallers++
+				if !containsNode(fd.Body, func(y ast.Node) bool {
+					cc, ok := y.(*ast.CallExpr)
+					return ok && isCallTo(info, cc, addArgs)
+				}) {
+					inAll = false
+				}
+			}
+		}
+		hasAddArgs = nCallers > 0 && inAll
+	}
 	if !hasAddArgs {
 		problems = append(problems, "generateIntern does not register the arguments with AddArgs")
 	}
@@ -476,6 +513,9 @@ func ruleR164(c *Ctx) {
 				// guarded by ThisName != "" and nothing that depends on the following input
 				var extra []string
 				for _, gd := range g.Guards(cl) {
+					if gd.Derived {
+						continue
+					}
 					if containsNode(gd.Cond, func(y ast.Node) bool {
 						call, ok := y.(*ast.CallExpr)
 						if !ok {
@@ -484,7 +524,25 @@ func ruleR164(c *Ctx) {
 						sel, ok := ast.Unparen(call.Fun).(*ast.SelectorExpr)
 						return ok && (sel.Sel.Name == "Peek" || sel.Sel.Name == "Next") && isNamed(info.TypeOf(sel.X), modPath, "Tokenizer")
 					}) {
-						extra = append(extra, nodeStr(c.Fset, gd.Cond))
+						// the closure form `name -> body`: the test is false here and its true branch builds a closure literal -
+						// an identifier in front of the arrow is a parameter, not an attribute
+						exempt := false
+						if !gd.Val {
+							for q := c.Parent(gd.Cond); q != nil && q != ast.Node(fd); q = c.Parent(q) {
+								if ifs, ok := q.(*ast.IfStmt); ok && containsNode(ifs.Cond, func(z ast.Node) bool { return z == ast.Node(gd.Cond) }) {
+									if containsNode(ifs.Body, func(z ast.Node) bool {
+										l, ok := z.(*ast.CompositeLit)
+										return ok && isNamed(info.TypeOf(l), modPath, "ClosureLiteral")
+									}) {
+										exempt = true
+									}
+									break
+								}
+							}
+						}
+						if !exempt {
+							extra = append(extra, nodeStr(c.Fset, gd.Cond))
+						}
 					}
 				}
 				c.Check(len(extra) == 0, key, cl.Pos(), "an attribute identifier becomes a map access whatever follows it",
